@@ -123,6 +123,11 @@ func (s authStateNone) receiveDHCommitMessage(c *Conversation, msg []byte) (auth
 }
 
 func (s authStateAwaitingRevealSig) receiveDHCommitMessage(c *Conversation, msg []byte) (authState, messageWithHeader, error) {
+	if c.ake.ourCommitPending {
+		// our own D-H Commit is still unanswered: we are in fact awaiting a D-H Key
+		return authStateAwaitingDHKey{}.receiveDHCommitMessage(c, msg)
+	}
+
 	//As per spec, we forget the old DH-commit (received before we sent the DH-Key)
 	//and use this one, so we forget all the keys
 	c.ake.keys = c.ake.keys.wipeAndKeepRevealKeys()
@@ -157,6 +162,7 @@ func (s authStateAwaitingDHKey) receiveDHCommitMessage(c *Conversation, msg []by
 			return s, nil, err
 		}
 
+		c.ake.ourCommitPending = true
 		return authStateAwaitingRevealSig{}, dhCommitMsg, nil
 	}
 
@@ -171,6 +177,11 @@ func (s authStateNone) receiveDHKeyMessage(c *Conversation, msg []byte) (authSta
 }
 
 func (s authStateAwaitingRevealSig) receiveDHKeyMessage(c *Conversation, msg []byte) (authState, messageWithHeader, error) {
+	if c.ake.ourCommitPending {
+		// the answer to the D-H Commit we sent again after winning a collision
+		return authStateAwaitingDHKey{}.receiveDHKeyMessage(c, msg)
+	}
+
 	return s, nil, nil
 }
 
@@ -216,6 +227,10 @@ func (s authStateNone) receiveRevealSigMessage(c *Conversation, msg []byte) (aut
 }
 
 func (s authStateAwaitingRevealSig) receiveRevealSigMessage(c *Conversation, msg []byte) (authState, messageWithHeader, error) {
+	if c.ake.ourCommitPending {
+		return authStateAwaitingDHKey{}.receiveRevealSigMessage(c, msg)
+	}
+
 	err := c.processRevealSig(msg)
 
 	if err != nil {
